@@ -12,7 +12,8 @@
 //   bincopyn A B n       the same for one user number                                  -> "ok"
 //   sercopy A B lo hi    Serializer::Serialize(A, lo..hi, T and P included) ; Deserialize into B -> "ok <nints> <ndoubles>"
 //   icopy A B            B's engine := A's engine (Phreeqc::operator= -> InternalCopy)   -> "ok"
-//   clearall A           DELETE -all through RunString                                  -> "run ..."
+//   find T <hexitem> <0|1>   CParser::find_option(item, real vopts of table T, exact)        -> "I <n>"
+//   vopts T                  the real option vector                                            -> "V <hex> ..."
 #ifndef CPPUNIT
 #define CPPUNIT 1
 #endif
@@ -30,6 +31,16 @@
 #include "Reaction.h"
 #include "Temperature.h"
 #include "Pressure.h"
+#include "SolutionIsotope.h"
+#include "ExchComp.h"
+#include "SurfaceComp.h"
+#include "SurfaceCharge.h"
+#include "GasComp.h"
+#include "PPassemblageComp.h"
+#include "SS.h"
+#include "SScomp.h"
+#include "KineticsComp.h"
+#include "Parser.h"
 #include "Serializer.h"
 #include "hx.hpp"
 #include <map>
@@ -82,6 +93,23 @@ public:
   static void icopy(IPhreeqc* a, IPhreeqc* b) { *b->PhreeqcPtr = *a->PhreeqcPtr; }
 };
 
+// the real option vectors (protected static members) through a derived accessor
+#define VOPTS_OF(T) struct V_##T : public T { static const std::vector<std::string>& v() { return T::vopts; } };
+VOPTS_OF(cxxSolution) VOPTS_OF(cxxSolutionIsotope) VOPTS_OF(cxxExchange) VOPTS_OF(cxxExchComp) VOPTS_OF(cxxSurface)
+VOPTS_OF(cxxSurfaceComp) VOPTS_OF(cxxSurfaceCharge) VOPTS_OF(cxxGasPhase) VOPTS_OF(cxxGasComp) VOPTS_OF(cxxPPassemblage)
+VOPTS_OF(cxxPPassemblageComp) VOPTS_OF(cxxSSassemblage) VOPTS_OF(cxxSS) VOPTS_OF(cxxSScomp) VOPTS_OF(cxxKinetics)
+VOPTS_OF(cxxKineticsComp) VOPTS_OF(cxxMix) VOPTS_OF(cxxReaction) VOPTS_OF(cxxTemperature) VOPTS_OF(cxxPressure)
+static const std::vector<std::string>* vopts_of(const std::string& t) {
+#define VO(N, T) if (t == N) return &V_##T::v();
+  VO("Solution", cxxSolution) VO("SolutionIsotope", cxxSolutionIsotope) VO("Exchange", cxxExchange) VO("ExchComp", cxxExchComp)
+  VO("Surface", cxxSurface) VO("SurfaceComp", cxxSurfaceComp) VO("SurfaceCharge", cxxSurfaceCharge) VO("GasPhase", cxxGasPhase)
+  VO("GasComp", cxxGasComp) VO("PPassemblage", cxxPPassemblage) VO("PPassemblageComp", cxxPPassemblageComp)
+  VO("SSassemblage", cxxSSassemblage) VO("SS", cxxSS) VO("SScomp", cxxSScomp) VO("Kinetics", cxxKinetics)
+  VO("KineticsComp", cxxKineticsComp) VO("Mix", cxxMix) VO("Reaction", cxxReaction) VO("Temperature", cxxTemperature)
+  VO("Pressure", cxxPressure)
+  return 0;
+}
+
 static std::string showVar(const VAR& v) {
   switch (v.type) {
     case TT_EMPTY: return "E";
@@ -109,6 +137,22 @@ int main() {
       p->SetErrorOn(true);
       inst[w[1]] = p;
       std::cout << "ok\n";
+      continue;
+    }
+    if (op == "find" && w.size() == 4) {          // find <Table> <hexitem> <exact01>  -> real CParser::find_option on the real vopts
+      const std::vector<std::string>* v = vopts_of(w[1]);
+      if (!v) { std::cout << "bad-op\n"; continue; }
+      int n = -7;
+      CParser::find_option(hx::unhex(w[2]), &n, *v, w[3] == "1");
+      std::cout << "I " << n << "\n";
+      continue;
+    }
+    if (op == "vopts" && w.size() == 2) {
+      const std::vector<std::string>* v = vopts_of(w[1]);
+      if (!v) { std::cout << "bad-op\n"; continue; }
+      std::cout << "V";
+      for (size_t i = 0; i < v->size(); i++) std::cout << " " << hx::hex((*v)[i]);
+      std::cout << "\n";
       continue;
     }
     if (w.size() < 2 || !inst.count(w[1])) { std::cout << "bad-op\n"; continue; }
